@@ -200,6 +200,14 @@ fn run(case: &Val) -> Val {
             }
             continue;
         }
+        if op[0].n() == 4 {
+            // the process changes its working directory (a daemon does after setting up logging): the relative
+            // pattern of the roller and the relative log path mean files below the NEW directory from now on
+            let d = root.join(op[1].str());
+            std::fs::create_dir_all(&d).expect("mkdir");
+            std::env::set_current_dir(&d).expect("chdir");
+            continue;
+        }
         if op[0].n() == 3 {
             // somebody else removes a directory with everything below it (a cleanup job, an unmount)
             let _ = std::fs::remove_dir_all(op[1].str());
